@@ -44,6 +44,7 @@ PROPS = {
             fam("reduce-grad", g(gen.fam_reduce, grads=True), 0, 0, view="values", rule="distinct (shape, k) / reshape targets / element maps, non-uniform seeds"),
             fam("reduce-grad-float", g(gen.fam_reduce, mode="float", grads=True), 0, 0, mode="float", view="values", rule="as above, all element maps, exponents in [-3,3]"),
             fam("edges-float", g(gen.fam_scalar_edges, mode="float"), 0, 0, mode="float", view="values", rule="every scalar function at magnitudes 1e-30..1e30 (value and gradient), binary operations across magnitudes, costs on probabilities near 0 and 1"),
+            fam("sizes-grad", g(gen.fam_sizes, grads=True), 0, 0, view="values", rule="lengths 5..65 that are not small powers of two (loop remainders): gradients of reductions, maps, element-wise operations, matmul (all flags, additive term), conv"),
         ],
         "assumptions": [F64_NOTE, SEED_NOTE, "x = 0 with an exponent below 1 is outside powf's differentiable domain"],
     },
@@ -59,6 +60,7 @@ PROPS = {
         "families": [
             fam("ewise", g(gen.fam_ewise), 400, 20000, view="values", rule="distinct ordered shape pairs (exhaustive rank<=3 size<=2 quick / rank<=4 size<=3 thorough, plus random rank<=5 size<=5); compatible pairs run add, sub, mul, div, axpy; incompatible pairs one op each"),
             fam("ewise-float", g(gen.fam_ewise, mode="float"), 150, 3000, mode="float", view="values", rule="as above on arbitrary doubles"),
+            fam("sizes", g(gen.fam_sizes, part="ewise"), 0, 0, view="values", rule="lengths 5..65 that are not small powers of two (loop remainders): element-wise operations incl. unit-dimension operands on either side"),
         ],
         "assumptions": [F64_NOTE],
     },
@@ -66,6 +68,7 @@ PROPS = {
         "families": [
             fam("matmul", g(gen.fam_matmul), 300, 8000, view="values", rule="distinct (leading dims a, leading dims b, m, k, n, ta, tb, additive-term form), rank-1 forms, inner mismatches"),
             fam("matmul-float", g(gen.fam_matmul, mode="float"), 60, 1500, mode="float", view="values", rule="as above on arbitrary doubles"),
+            fam("sizes", g(gen.fam_sizes, part="matmul"), 0, 0, view="values", rule="lengths 5..65 that are not small powers of two (loop remainders): inner length, row count, column count x all flags x additive term, batched"),
         ],
         "assumptions": [F64_NOTE],
     },
@@ -73,6 +76,7 @@ PROPS = {
         "families": [
             fam("conv", g(gen.fam_conv), 300, 4000, view="values", rule="distinct (batch, depth, rows, cols, count, frows, fcols, sr, sc); refusals"),
             fam("conv-float", g(gen.fam_conv, mode="float"), 60, 800, mode="float", view="values", rule="as above on arbitrary doubles"),
+            fam("sizes", g(gen.fam_sizes, part="conv"), 0, 0, view="values", rule="lengths 5..65 that are not small powers of two (loop remainders): image rows / columns of awkward length, non-square window grids, rectangular filters and strides"),
         ],
         "assumptions": [F64_NOTE],
     },
@@ -80,6 +84,8 @@ PROPS = {
         "families": [
             fam("reduce", g(gen.fam_reduce), 0, 0, view="values", rule="every shape rank<=3 (quick) / rank<=4 (thorough) size<=3: every k in 0..rank+1, reshape to every 1/2-factor shape and a wrong count, every exact element map"),
             fam("reduce-float", g(gen.fam_reduce, mode="float"), 0, 0, mode="float", view="values", rule="as above with ln, exp, recip, sigmoid, softmax, real exponents"),
+            fam("sizes", g(gen.fam_sizes, part="reduce"), 0, 0, view="values", rule="lengths 5..65 that are not small powers of two (loop remainders): sum(k) / sum_all over groups of awkward length, every exact element map"),
+            fam("sizes-float", g(gen.fam_sizes, mode="float", part="reduce"), 0, 0, mode="float", view="values", rule="as above with exp, ln, recip, sigmoid, softmax rows of awkward length"),
         ],
         "assumptions": [F64_NOTE, "softmax rows sum to one only up to rounding in floats; the oracle compares with exp(x)/sum exp(x) under the float tolerance"],
     },
@@ -179,6 +185,8 @@ PROPS = {
             fam("reduce-f32-float", g(gen.fam_reduce, mode="f32"), 0, 0, mode="f32", variant="f32", baseline_variant="f64", rule="non-ring maps against Lean Float32 with tolerance 2e-4"),
             fam("dag-f32-float", g(gen.fam_dag, mode="f32"), 60, 1500, mode="f32", variant="f32", baseline_variant="f64", rule="random programs against Lean Float32"),
             fam("edges-f32-float", g(gen.fam_scalar_edges, mode="f32"), 0, 0, mode="f32", variant="f32", baseline_variant="f64", rule="every scalar function at magnitudes 1e-30..1e30 (value and gradient), binary operations across magnitudes, costs on probabilities near 0 and 1: against Lean Float32"),
+            fam("sizes-f32", g(gen.fam_sizes), 0, 0, variant="f32", baseline_variant="f64", rule="lengths 5..65 that are not small powers of two (loop remainders): every part, exact channel on the f32 build"),
+            fam("sizes-grad-f32", g(gen.fam_sizes, grads=True), 0, 0, variant="f32", baseline_variant="f64", rule="as above with gradients"),
         ],
         "assumptions": ["the 'within single-precision rounding' half is validated by differential runs only (no IEEE rounding theory in Lean here): labelled partial",
                         "exact channel on the f32 build: integers below 2^24, where f32 arithmetic is exact"],
